@@ -768,7 +768,8 @@ def sys_cancel_cleanup():
                        'H2': {'R': [['s', 1]], 'L': [['s', 1]], 'M': [], 'C': [['s', 1]]}}
             events = {'R': {'timeout': 5}}
         else:
-            scripts = {'H1': {'R': [['cl', cl], ['s', 50]], 'L': [], 'M': []}, 'H2': {'R': [['s', 1]], 'L': [['s', 1]], 'M': []}}
+            # the handler is still asleep when stop()'s 0.1 s of grace are over: it is cancelled, and stop() returns without waiting for its clean-up
+            scripts = {'H1': {'R': [['cl', cl], ['s', 300]], 'L': [], 'M': []}, 'H2': {'R': [['s', 1]], 'L': [['s', 1]], 'M': []}}
             events = {}
         handlers = [typed('b1', 'R', 'H1', hid='h1')] + ([typed('b1', 'R', 'H2', hid='h2')] if nh == 2 else [])
         handlers += [typed('b1', 'L', 'H2', hid='hl'), wild('b2', 'H2' if src != 'parent' else 'H1', hid='hb2')]
